@@ -14,6 +14,7 @@
 //   limitations under the License.
 //
 #include <assert.h>            // for assert
+#include <algorithm>           // for remove_if
 #include <ext/alloc_traits.h>  // for __alloc_traits<>::value_type
 #include <iomanip>             // for operator<<, setfill, setw
 #include <iostream>            // for operator<<, basic_ostream, ostream, cout
@@ -142,8 +143,19 @@ public:
 	// Note that indexing within catalogs[][] is 0-based, unlike the
 	// normal usage for DFS catalogs, because the 0-entry for the disc
 	// title is not included.
-	const std::vector<std::vector<DFS::CatalogEntry>> catalogs =
+	std::vector<std::vector<DFS::CatalogEntry>> catalogs =
 	  root.get_catalog_in_disc_order();
+	// Empty files occupy no sectors, so they play no part in the
+	// computation of the gaps between files.
+	for (auto& cat : catalogs)
+	  {
+	    cat.erase(std::remove_if(cat.begin(), cat.end(),
+				     [](const DFS::CatalogEntry& e)
+				     {
+				       return e.file_length() == 0;
+				     }),
+		      cat.end());
+	  }
 	assert(catalogs.size() <= std::numeric_limits<int>::max());
 	auto start_sec_of_next = [&catalogs, &root]
 	  (unsigned int catalog, unsigned int entry) -> DFS::sector_count_type
